@@ -54,7 +54,7 @@ class Run:
                 kf_lines.append('KNOWN-FINDING: property=%s %s [%s] key=%s' % (self.prop, hit.get('what', o['what']), hit.get('id'), '|'.join(k)))
             else:
                 viol.append(o)
-        ev_dir = os.path.join(VERIF, 'evidence')
+        ev_dir = os.environ.get('VERIF_EVIDENCE') or os.path.join(VERIF, 'evidence')
         vdir = os.path.join(ev_dir, 'violations')
         os.makedirs(vdir, exist_ok=True)
         # stale violation files of this property are removed
